@@ -9,6 +9,7 @@ use rustbus::wire::marshal::MarshalContext;
 use rustbus::wire::unmarshal_context::UnmarshalContext;
 use rustbus::wire::validate_raw::validate_marshalled;
 use rustbus::ByteOrder;
+use rustbus::Marshal;
 
 pub fn bo_name(bo: ByteOrder) -> &'static str {
     match bo {
@@ -328,6 +329,91 @@ impl<'a> Wire<'a> {
         self.pool = pool;
     }
 
+    /// values that have no encoding: a NUL in a string, an invalid object path / signature, at any nesting
+    /// position of a random Param tree, and through the typed API; they must be refused and leave no byte
+    pub fn run_unencodable(&mut self, n: usize) {
+        let mut done = 0;
+        let mut tries = 0;
+        while done < n && tries < n * 50 {
+            tries += 1;
+            let d = self.rng.range(0, 4) as usize;
+            let ty = gen_ty(&mut self.rng, d, false);
+            let mut fdc = 0;
+            let val = gen_val(&mut self.rng, &ty, 3, &mut fdc);
+            let mut hit = false;
+            let pick = self.rng.below(8);
+            let mut counter = 0;
+            let bad = poison(&ty, &val, pick, &mut counter, &mut hit, &mut self.rng);
+            if !hit {
+                continue;
+            }
+            // Strings must stay valid UTF-8 to be expressible as a Param at all
+            let Some(param) = to_param(&ty, &bad, &[]) else { continue };
+            let bad = from_param(&param, &|_| 0);
+            let bo = *self.rng.pick(&ORDERS);
+            let phase = *self.rng.pick(&self.phases);
+            let mut buf = vec![0xEEu8; phase];
+            let mut fds = Vec::new();
+            let r = guard(|| {
+                let mut ctx = MarshalContext { buf: &mut buf, fds: &mut fds, byteorder: bo };
+                rustbus::wire::marshal::container::marshal_param(&param, &mut ctx)
+            });
+            let req = format!("w.enc {} {} {} {}", bo_name(bo), phase, ty.sig(), bad.show());
+            let refused = matches!(r, Ok(Err(_)));
+            if !refused {
+                self.out.violation(&req, &format!("a value without a valid encoding was marshalled: {:?} -> {}", r.map(|x| x.is_ok()), hex(&buf[phase..])));
+            }
+            // through the body API nothing may be left behind
+            let mut msg = MarshalledMessage::with_byteorder(bo);
+            msg.body.push_param(7u8).unwrap();
+            let before = (msg.get_buf().to_vec(), msg.get_sig().to_string());
+            let r2 = guard(|| msg.body.push_old_param(&param));
+            if !matches!(r2, Ok(Err(_))) || msg.get_buf() != &before.0[..] || msg.get_sig() != before.1 {
+                self.out.violation(&req, "push_old_param of an unencodable value did not fail cleanly (bytes or signature left behind)");
+            }
+            self.out.hit("unencodable_param");
+            self.out.case(&req, if refused { "refuse" } else { "emitted" }, true);
+            done += 1;
+        }
+        // typed API: &str / String with NUL at every position, alone and nested
+        for pos in 0..4usize {
+            let mut s = String::from("abc");
+            s.insert(pos, '\0');
+            for bo in ORDERS {
+                for phase in [0usize, 1, 5] {
+                    let cases: Vec<(String, Box<dyn Fn(&mut MarshalContext) -> Result<(), rustbus::wire::errors::MarshalError> + '_>)> = vec![
+                        ("s".into(), Box::new(|c| s.as_str().marshal(c))),
+                        ("(us)".into(), Box::new(|c| (7u32, s.as_str()).marshal(c))),
+                        ("as".into(), Box::new(|c| vec!["ok", s.as_str()].marshal(c))),
+                        ("v".into(), Box::new(|c| s.as_str().marshal_as_variant(c))),
+                    ];
+                    for (sig, f) in cases {
+                        let mut buf = vec![0u8; phase];
+                        let mut fds = Vec::new();
+                        let r = guard(|| {
+                            let mut ctx = MarshalContext { buf: &mut buf, fds: &mut fds, byteorder: bo };
+                            f(&mut ctx)
+                        });
+                        let sv = Val::Str(s.as_bytes().to_vec());
+                        let val = match sig.as_str() {
+                            "s" => sv,
+                            "(us)" => Val::Struct(vec![Val::Num(7), sv]),
+                            "as" => Val::Arr(vec![Val::Str(b"ok".to_vec()), sv]),
+                            _ => Val::Variant(Ty::Base('s'), Box::new(sv)),
+                        };
+                        let req = format!("w.enc {} {} {} {}", bo_name(bo), phase, sig, val.show());
+                        let refused = matches!(r, Ok(Err(_)));
+                        if !refused {
+                            self.out.violation(&req, "the typed API marshalled a string containing NUL");
+                        }
+                        self.out.hit("unencodable_typed");
+                        self.out.case(&req, if refused { "refuse" } else { "emitted" }, true);
+                    }
+                }
+            }
+        }
+    }
+
     pub fn run_random_bytes(&mut self, n: usize) {
         for _ in 0..n {
             let d = self.rng.range(0, 3) as usize;
@@ -341,6 +427,39 @@ impl<'a> Wire<'a> {
             self.out.hit("random_bytes");
             self.dec_case(bo, off, &ty, &buf, None, true);
         }
+    }
+}
+
+/// replace the `pick`-th string-like leaf by one that has no encoding
+fn poison(ty: &Ty, v: &Val, pick: u64, counter: &mut u64, hit: &mut bool, rng: &mut Prng) -> Val {
+    match (ty, v) {
+        (Ty::Base(c), Val::Str(_)) if "sog".contains(*c) => {
+            let mine = *counter == pick;
+            *counter += 1;
+            if mine && !*hit {
+                *hit = true;
+                let bad: &str = match c {
+                    's' => *rng.pick(&["\0", "a\0", "\0b", "ab\0cd"]),
+                    'o' => *rng.pick(&["", "a", "/a/", "//", "/a b", "/\u{e9}", "/a\0"]),
+                    _ => *rng.pick(&["(", "a", "{ss}", "()", "z", "a{vs}", "aaaaaaaaaaaaaaaaaaaaaaaaaaaaaaaaay"]),
+                };
+                Val::Str(bad.as_bytes().to_vec())
+            } else {
+                v.clone()
+            }
+        }
+        (Ty::Array(e), Val::Arr(vs)) => Val::Arr(vs.iter().map(|x| poison(e, x, pick, counter, hit, rng)).collect()),
+        (Ty::Dict(k, vt), Val::Arr(es)) => Val::Arr(
+            es.iter()
+                .map(|e| match e {
+                    Val::Struct(kv) => Val::Struct(vec![poison(&Ty::Base(*k), &kv[0], pick, counter, hit, rng), poison(vt, &kv[1], pick, counter, hit, rng)]),
+                    x => x.clone(),
+                })
+                .collect(),
+        ),
+        (Ty::Struct(fs), Val::Struct(vs)) => Val::Struct(fs.iter().zip(vs.iter()).map(|(f, x)| poison(f, x, pick, counter, hit, rng)).collect()),
+        (Ty::Variant, Val::Variant(t, x)) => Val::Variant(t.clone(), Box::new(poison(t, x, pick, counter, hit, rng))),
+        _ => v.clone(),
     }
 }
 
@@ -382,6 +501,9 @@ pub fn run(cfg: &Cfg, mode: Mode) {
         };
         run_catalogue(&mut w);
         w.run_param_stream(if cfg.thorough { 60_000 } else { 3_000 }, if cfg.thorough { 8 } else { 5 });
+        if mode == Mode::C02 {
+            w.run_unencodable(if cfg.thorough { 5000 } else { 400 });
+        }
         if mode == Mode::C03 {
             w.run_corruptions(if cfg.thorough { 400 } else { 120 });
             w.run_random_bytes(if cfg.thorough { 300_000 } else { 20_000 });
